@@ -110,10 +110,10 @@ CHECKS = {
     "C04": {
         "groups": [{
             "pkg": BS, "funcs": ["VerifC04Tampered"],
-            "covers": {"VerifC04Tampered": ["as-head", "as-ancestor"]},
+            "covers": {"VerifC04Tampered": ["as-head", "as-ancestor", "codec-alias"]},
         }],
         "assumptions": [
-            "a valid entry of an authorised writer, one field of its wire form replaced (payload by a symbolic byte, clock time by ANY other 64-bit value, clock id, next, refs, key, signature, log id, or only the claimed address), keeping the claimed address or re-addressed; delivered as an announced head or (re-addressed) as the ancestor of a valid head",
+            "a valid entry of an authorised writer, one field of its wire form replaced (payload by a symbolic byte, clock time by ANY other 64-bit value, clock id, next, refs, key, signature, log id, only the claimed address, or the claimed address replaced by an alias with the same multihash digest and another codec), keeping the claimed address or re-addressed; delivered as an announced head or (re-addressed) as the ancestor of a valid head",
             "content addressing = perfect hash of every wire field except the hash; ancestors are fetched by hash, hence their content is whatever hashes to it; perfect symbolic signatures over the hashable form computed by the real ToHashable/toBuffer",
         ],
         "outside": ["hash collisions", "CBOR canonicalisation", "mutations of the identity block only (the signature does not cover it: that is C03's known finding)"],
